@@ -3,7 +3,8 @@
 (*  kw / kwinv : keyword_to_atom(v) / keyword_from_atom(v), v = 0,1,2        *)
 (*  prim       : the modern primitive list                                   *)
 (*  impl       : does the evaluator of operator-set version v implement the  *)
-(*               opcode (anything but "unimplemented operator")              *)
+(*               opcode (anything but "unimplemented operator"); v = 3 is    *)
+(*               the stepping evaluator                                       *)
 (*  use        : per name, the opcode it assembles to, behaves as when        *)
 (*               compiled by the classic and the modern compiler, is mapped   *)
 (*               to by the stepping evaluator's table and by #name            *)
@@ -32,13 +33,16 @@ UseOk(u) == \A p \in Kw(2) \cup Prims : p[1] = u.name =>
                       /\ u.hash_syntax \in {p[2], <<-1>>}
                       /\ u.classic_compiled \in {p[2], <<-2>>}  \* -2: special form (q), not compiled as a call
                       /\ u.modern_compiled \in {p[2], <<-2>>}
+                      /\ u.stepper_runs \in {p[2], <<-2>>}      \* the stepping evaluator runs the opcode as the consensus one does
 SameOpcodeOk == /\ \A p \in Kw(2), q \in Prims : p[1] = q[1] => p[2] = q[2]
                 /\ \A u \in Uses : UseOk(u)
 \* every name of the latest classic table is known to the modern compiler and the stepping evaluator, and vice versa
 CoverageOk == /\ \A p \in Kw(2) : \E q \in Prims : q[1] = p[1]
               /\ \A q \in Prims : \E p \in Kw(2) : p[1] = q[1]
 \* every opcode of a version's table is implemented by that version's evaluator (q and a are built in)
-ImplementedOk == \A v \in 0..2 : \A p \in Kw(v) : p[2] \in Impl(v)
+\* ... and every named opcode by the stepping evaluator ("version" 3: cldb, compile-time evaluation, the REPL)
+ImplementedOk == /\ \A v \in 0..2 : \A p \in Kw(v) : p[2] \in Impl(v)
+                 /\ \A p \in Kw(2) \cup Prims : p[2] \in Impl(3)
 \* the disassembler of version v prints exactly the names of table v, for opcodes of <= 2 bytes
 DisasmOk == \A v \in 0..2 : \A p \in Kw(v) : Len(p[2]) <= 2 => <<p[2], p[1]>> \in Disasm(v)
 
@@ -55,5 +59,6 @@ Finished == done =>
    PrintT(<<"RESULT", ToJson([inverse |-> InverseOk, monotone |-> MonotoneOk, same_opcode |-> SameOpcodeOk, coverage |-> CoverageOk,
                                implemented |-> ImplementedOk, disasm |-> DisasmOk, canonical_consistent |-> TablesConsistent,
                                drift |-> Drift, bad_names |-> {u.name : u \in {x \in Uses : ~UseOk(x)}},
-                               unimplemented |-> UNION {{<<v, q[1]>> : q \in {x \in Kw(v) : x[2] \notin Impl(v)}} : v \in 0..2}, names |-> Cardinality({u.name : u \in Uses}), rows |-> Len(Rec)])>>)
+                               unimplemented |-> UNION {{<<v, q[1]>> : q \in {x \in Kw(v) : x[2] \notin Impl(v)}} : v \in 0..2}
+                                                  \cup {<<3, q[1]>> : q \in {x \in Kw(2) \cup Prims : x[2] \notin Impl(3)}}, names |-> Cardinality({u.name : u \in Uses}), rows |-> Len(Rec)])>>)
 =============================================================================
